@@ -160,7 +160,11 @@ func c25(c *vc.Ctx) {
 	}
 	// the bash process must have a pid with a digit that no expansion of the
 	// alphabet can produce (results only contain the digits 0-3), so that
-	// replacing the pid by PID cannot touch anything else
+	// replacing the pid by PID cannot touch anything else. The composite
+	// items do produce other digits; the pid is replaced only in strings that
+	// hold "$$", and there a composite item is either not expanded at all
+	// ($${V..}, $$((..)) : its text follows the pid literally) or comes
+	// before the "$$"; all its numerals are single digits
 	prelude := `case $$ in *[4-9]*) ;; *) bash "$0"; exit;; esac
 HOME=` + c25Home + `; set -f; unset a d
 `
